@@ -63,11 +63,13 @@ WR == /\ Is("wr")
       /\ UNCHANGED <<opts, ws, cnt, memo, lastp>>
 
 (* relational clause of C06: same tokens, ids renamed by the permutation *)
+(* (ids outside the lists cannot be renamed: such a report is unequal by definition) *)
+RenamedEq(before, after, ll, rl) ==
+   /\ \A i \in 1..Len(before) : before[i].l >= 0 /\ before[i].l <= Len(ll) /\ before[i].r >= 0 /\ before[i].r <= Len(rl)
+   /\ CoreSeq(after) = RenameToks(CoreSeq(before), PermOfList(ll), PermOfList(rl))
 MapRel == /\ Is("maprel")
-          /\ A("C06", "tokens-equal-up-to-renaming",
-               CoreSeq(E.after) = RenameToks(CoreSeq(E.before), PermOfList(E.ll), PermOfList(E.rl)))
-          /\ A("C13", "mapped-dictionary-tokenizes-identically",
-               CoreSeq(E.after) = RenameToks(CoreSeq(E.before), PermOfList(E.ll), PermOfList(E.rl)))
+          /\ A("C06", "tokens-equal-up-to-renaming", RenamedEq(E.before, E.after, E.ll, E.rl))
+          /\ A("C13", "mapped-dictionary-tokenizes-identically", RenamedEq(E.before, E.after, E.ll, E.rl))
           /\ A("C06", "surfaces-and-features-equal",
                /\ Len(E.after) = Len(E.before)
                /\ \A i \in 1..Len(E.after) : E.after[i].surf = E.before[i].surf /\ E.after[i].f = E.before[i].f)
